@@ -40,7 +40,8 @@ OUT_CODECS = TRUE_CODECS + list(OUT_EXTRA)
 PY.update(OUT_EXTRA)
 SKEL = {"skT": "T:", "skB": " |\n"}          # the ASCII pieces of the rendered output, symbols of the output document
 ALIASES = {"utf8": "utf_8"}                       # an alias spelling usable in a coding comment
-BASE = {"A": "A", "eacute": "é", "euro": "€", "zhe": "Ж", "hira": "あ", "han": "中"}
+# representative characters; "kata" (U+30BD) is 83 5C in shift_jis: a trail byte in the ASCII range (the backslash)
+BASE = {"A": "A", "eacute": "é", "euro": "€", "zhe": "Ж", "hira": "あ", "han": "中", "kata": "\u30bd"}
 ERRS = ["strict", "replace", "ignore", "xmlcharrefreplace", "backslashreplace"]
 NONE = "none"
 # byte strings that may be undecodable, by kind, and where they are put into the input
@@ -49,8 +50,29 @@ JUNK = {"jff": "ff", "j81": "81",                                       # a byte
         "jc080": "c080", "jeda080": "eda080",                           # overlong / illegal continuation (utf-8)
         "j80": "80", "jbf": "bf"}                                       # lone trail byte
 JUNK_KIND = {"jff": "invalid", "j81": "invalid", "jc080": "illegal", "jeda080": "illegal", "j80": "lone-trail", "jbf": "lone-trail"}
-POSITIONS = ["start", "incomment", "middle", "eol_lf", "eol_crlf", "eof"]
-FOLLOWER = {"start": "sp", "incomment": "sp", "middle": "sp", "eol_lf": "lf", "eol_crlf": "crlf", "eof": "eof"}
+POSITIONS = ["start", "aftercomment", "incomment", "middle", "eol_lf", "eol_crlf", "eof"]
+FOLLOWER = {"start": "sp", "aftercomment": "sp", "incomment": "sp", "middle": "sp", "eol_lf": "lf", "eol_crlf": "crlf", "eof": "eof"}
+# Characters chosen by how their BYTES interact with the framing of the input (BOM, magic comment, line ends, template
+# syntax), placed like the byte strings above -- at the first position, right after the magic comment, inside it, in
+# the middle and at the ends of lines and of the input -- encoded in the cell's own codec (so they are decodable):
+EDGE = {"fw": "\uff21",        # utf-8 form starts with 0xEF, like the BOM (full-width A; also in the CJK codecs)
+        "bomset": "\ufefb",    # utf-8 form EF BB BB consists of BOM bytes only
+        "bom2": "\ufeff",      # a second U+FEFF after the mark
+        "fffd": "\ufffd",      # EF BF BD
+        "astral": "\U0001f600",  # non-BMP, four bytes F0..
+        "hash": "#",           # the first byte of a magic comment, without being one
+        "sj5c": "\u8868", "sj7c": "\u30dd", "sj7d": "\u30de", "sj40": "\u30a1"}   # shift_jis trail bytes \ | } @
+JUNK_CODEC = {j: "any" for j in JUNK}
+for _n, _ch in EDGE.items():
+    for _c in (("utf_8", "latin_1", "shift_jis") if _n == "hash" else ("utf_8", "shift_jis", "euc_jp", "gb2312")):
+        try:
+            _hx = _ch.encode(PY[_c]).hex()
+        except UnicodeEncodeError:
+            continue
+        _j = "c_%s_%s" % (_n, _c)
+        JUNK[_j] = _hx
+        JUNK_KIND[_j] = "char"
+        JUNK_CODEC[_j] = _c
 FOLLOW_BYTES = {"sp": b" ", "lf": b"\n", "crlf": b"\r\n", "eof": b""}
 
 
@@ -73,8 +95,10 @@ def build_tables():
                 rep[c].append(n)
             except UnicodeEncodeError:
                 pass
-    hexes = sorted(hexes | {"h" + j for j in JUNK.values()})
+    base_hexes = set(hexes)
+    hexes = sorted(hexes) + sorted({"h" + j for j in JUNK.values()} - hexes)
     dec = {}
+    coreset = set(BASE)     # the characters and what THEY decode to under foreign codecs (the alphabet of the output grid)
     for c in TRUE_CODECS:
         dec[c] = {}
         for h in hexes:
@@ -91,6 +115,9 @@ def build_tables():
                 sym[name] = s
                 rev[s] = name
             dec[c][h] = rev[s]
+            if h in base_hexes:
+                coreset.add(rev[s])
+    core_syms = sorted(coreset)
     # the junk byte strings in their context (what follows: a space, a line end, the end of the input)
     junk = {}
     for c in TRUE_CODECS:
@@ -157,7 +184,7 @@ def build_tables():
     canon = {s: ALIASES.get(s, s) for s in spell}
     canon.update({c: c for c in OUT_EXTRA})
     canon[NONE] = NONE
-    return {"spell": spell, "canon": canon, "rep": rep, "enc": enc, "dec": dec, "ence": ence, "prefix": prefix, "junk": junk,
+    return {"spell": spell, "canon": canon, "rep": rep, "enc": enc, "dec": dec, "ence": ence, "prefix": prefix, "junk": junk, "core_syms": core_syms,
             "syms": sorted(sym), "hexes": hexes}, sym
 
 
@@ -182,9 +209,11 @@ def tables_module(tb, cells):
          "T_JunkT == " + _fn(tb["junk"], lambda d: _fn(d, lambda d2: _fn(d2, s))),
          "T_Junk == " + core.tla_set([s(j) for j in JUNK]),
          "T_JunkHex == " + _fn({j: "h" + h for j, h in JUNK.items()}, s),
+         "T_JunkCodec == " + _fn(JUNK_CODEC, s),
          "T_Canon == " + _fn(tb["canon"], s),
          "T_Base == " + core.tla_set([s(c) for c in BASE]),
          "T_Syms == " + core.tla_set([s(c) for c in tb["syms"]]),
+         "T_GridSyms == " + core.tla_set([s(c) for c in tb["core_syms"]]),
          "T_Errs == " + core.tla_set([s(c) for c in ERRS]),
          "T_Rep == " + _fn(tb["rep"], lambda v: core.tla_set([s(x) for x in v])),
          "T_EncT == " + _fn(tb["enc"], lambda d: _fn(d, s)),
@@ -294,15 +323,22 @@ def make_cells(run, tb):
     for x in TRUE_CODECS:
         rep = tb["rep"][x]
         for j in JUNK:
+            if JUNK_CODEC[j] not in ("any", x):
+                continue
             for pos in POSITIONS:
-                for _ in range(2 if run.thorough else 1):
-                    if pos == "incomment":
+                for k in range(2 if run.thorough or (JUNK_KIND.get(j) == "char" and x == "utf_8" and pos == "start") else 1):
+                    if pos in ("incomment", "aftercomment"):
                         cm, ie = x, rng.choice([NONE, x])
                     elif pos == "start":
                         cm, ie = NONE, rng.choice([NONE, x, x])
                     else:
                         cm, ie = rng.choice([(x, NONE), (NONE, x), (NONE, NONE), (x, x)])
-                    add(form="bytes", x=x, bom=(x == "utf_8" and rng.random() < 0.3), cm=cm, ie=ie,
+                    bom = x == "utf_8" and rng.random() < 0.3
+                    if JUNK_KIND.get(j) == "char" and x == "utf_8" and pos == "start":
+                        bom = bool(k)                  # the first character of the input, without and with a BOM before it
+                    if JUNK[j] == "efbbbf" and pos == "start":
+                        bom = True                     # (without a mark before it, it IS the mark)
+                    add(form="bytes", x=x, bom=bom, cm=cm, ie=ie,
                         c=[rng.choice(rep), rng.choice(rep)], path=rng.choice(["bytes", "file", "moddir", "reload"]),
                         oe=NONE, errs="strict", bj=j, bp=pos)
     # a str given directly: never decoded, the comment still is not content
@@ -352,7 +388,7 @@ def _place(lines, pos):
     """Put the junk placeholder {J} into the first line / after the last line of a body or output skeleton."""
     lines = list(lines)
     first = lines[0]
-    if pos == "start":
+    if pos in ("start", "aftercomment"):       # the first bytes of the body: of the input, or right after the magic comment
         lines[0] = "{J} " + first
     elif pos == "middle":
         lines[0] = first.replace(" |\n", " {J} |\n")
@@ -631,12 +667,12 @@ def check(run):
 
     # ------------------------------------------------------------------ 1. TLC: the grids, exhaustively
     skip = bool(os.environ.get("VERIF_DEV_SKIPGRIDS"))      # development aid only (mutant runs)
-    res = run.tlc("MC_Encoding", CFG % ("FALSE", "SpecOut" if not skip else "SpecOutDiag"), name="mc-out", extra_files=xf, workers=workers)
+    res = run.tlc("MC_Encoding", CFG % ("FALSE", "SpecOut" if run.thorough and not skip else "SpecOutDiag"), name="mc-out", extra_files=xf, workers=workers, heap="3g")
     if res.violated:
         run.spec_violation(res)
-    grids = ["SpecIn", "SpecBad"] if not skip else []
+    grids = (["SpecIn", "SpecBad"] if run.thorough else ["SpecInDiag", "SpecBadDiag"]) if not skip else []
     for g in grids:
-        res = run.tlc("MC_Encoding", CFG % ("FALSE", g), name="mc-" + g, extra_files=xf, workers=workers, timeout=1500)
+        res = run.tlc("MC_Encoding", CFG % ("FALSE", g), name="mc-" + g, extra_files=xf, workers=workers, timeout=1500, heap="3g")
         if res.violated:
             run.spec_violation(res)
     # ------------------------------------------------------------------ 2. TLC: expected observations of the listed cells
@@ -645,7 +681,7 @@ def check(run):
     CH = 4000
     for k in range(0, len(cells), CH):
         res = run.tlc("MC_Encoding", CFG % ("TRUE", "MCSpec"), name="mc-list-%d" % (k // CH),
-                      extra_files={"Encoding_Tables.tla": tables_module(tb, cells[k:k + CH])}, coverage=True, workers=workers, timeout=1500)
+                      extra_files={"Encoding_Tables.tla": tables_module(tb, cells[k:k + CH])}, coverage=True, workers=workers, timeout=1500, heap="3g")
         if res.violated:
             run.spec_violation(res)
             return {"rule": "design model violated", "exhaustive": False}
